@@ -15,13 +15,13 @@ RULE = ("A generated program (C02 generator: forward / backward label references
         "assembling the spliced text; 1 case in 8 repeats the comparison through real assembler.py processes (--to_bin "
         "bytes, --print --symbols output). A second search includes one label-free file two or three times in a "
         "program (side by side, or once directly and once through another file). Half of the programs carry comments "
-        "holding VT, FF, FS, GS, RS, NEL, U+2028 or U+2029 (line ends to str.splitlines, not to a file read line by line). Missing files (including names that run through a regular file, name a directory or are too long for the file system) and inclusion cycles must be diagnostics. Non-trivial = a "
+        "holding VT, FF, FS, GS, RS, NEL, U+2028 or U+2029 (line ends to str.splitlines, not to a file read line by line). INCLUDE lines are also written in lower case and with a comment after the file name (with or without a blank before the ;). Missing files (including names that run through a regular file, name a directory or are too long for the file system) and inclusion cycles must be diagnostics. Non-trivial = a "
         "label reference crosses a file boundary; distinct by case hash.")
 ASSUMPTIONS = [
     "the spliced program is the reference: both sides run the same assembler, the relation is metamorphic",
     "INCLUDE lines carry no label (a label on an INCLUDE line has no defined meaning)",
 ]
-HEALTH = {"crossing_reference": 0.08, "nested": 0.04, "cli": 16, "repeated_include": 200}
+HEALTH = {"crossing_reference": 0.08, "nested": 0.04, "cli": 16, "repeated_include": 200, "include_with_comment": 300}
 EXHAUSTIVE = {}
 
 _FN = ["a", "b", "cc", "defs", "zzzzzzzz", "m", "inc/sub", "inc/deep"]
@@ -32,7 +32,10 @@ _odd = st.lists(st.tuples(st.integers(0, 60), st.sampled_from(_SEPARATORS)), min
 _case = st.fixed_dictionaries(dict(
     prog=proggen.program, cuts=st.lists(st.integers(0, 60), min_size=4, max_size=7), nested=st.booleans(),
     names=st.permutations(_FN), cli=st.integers(0, 7), odd=st.one_of(st.just([]), _odd),
-    empty_at=st.one_of(st.none(), st.none(), st.integers(0, 60)), inc_case=st.integers(0, 5)))
+    empty_at=st.one_of(st.none(), st.none(), st.integers(0, 60)), inc_case=st.integers(0, 5),
+    inc_tail=st.integers(0, 11)))
+# what follows the file name on an INCLUDE line (index 0 and >= len: nothing): a comment is not part of the name
+_INC_TAILS = ["", ";note", " ;note", "\t; see b.asm", "   ", " ; INCLUDE other.asm", ";"]
 
 
 def with_odd_comments(lines, odd):
@@ -224,6 +227,10 @@ def execute(case):
             word = " include " if case["inc_case"] == 1 else " Include "
             files = dict((k, [l.replace(" INCLUDE ", word) if l.startswith(" INCLUDE ") else l for l in v]) for k, v in files.items())
             labels.append("include_lower_case")
+        tail = _INC_TAILS[case["inc_tail"]] if 0 < case.get("inc_tail", 0) < len(_INC_TAILS) else ""
+        if tail:
+            files = dict((k, [l[:-1] + tail + "\n" if l.upper().startswith(" INCLUDE ") else l for l in v]) for k, v in files.items())
+            labels.append("include_with_comment")
         if case.get("empty_at") is not None:
             # two cuts on one boundary: an included file that holds nothing (zero bytes), in a file picked by the draw
             host = sorted(files)[case["empty_at"] % len(files)]
